@@ -370,6 +370,9 @@ def generate(ctx):
     for i in range(n):
         r = rng.fork('synth', i)
         d = E.gen_diagram(r, max_classes=ctx.pick(5, 7))
+        if i % 3 == 2:
+            # NON-EMPTY descriptions on every element kind (--, <, &, quotes, newlines): no part of what is mirrored
+            d['descr'] = r.randint(1, 1 << 30)
         choices = E.comp_choices(d)
         x = r.random()
         if x < 0.04:
